@@ -128,7 +128,7 @@ def check_project(chk, p, sess, stats, replay_base):
 
 
 def build_truth(probe, p):
-    r = probe.call({"cmd": "asm", "files": p.files()})
+    r = probe.call({"cmd": "asm", "files": p.files()}, timeout=300.0)
     if "crash" in r or "hang" in r or "panic" in r:
         return ["probe: %s" % json.dumps(r)[:200]]
     return navgen.ground_truth(p, r)
@@ -190,7 +190,10 @@ def run(chk):
         return lsp_nav.NavSession(mos, files, workdir)
     for name, case in corpus_projects():
         try:
-            run_corpus_case(chk, name, case, sess_factory, stats)
+            try:
+                run_corpus_case(chk, name, case, sess_factory, stats)
+            except lsp_nav.ServerSlow:
+                run_corpus_case(chk, name, case, sess_factory, stats)      # once more; a second timeout propagates as a crash of the check
         except lsp_nav.ServerDied as e:
             chk.oracle_failure(None, "server died on corpus %s: %s" % (name, e), {"corpus": name})
     import c16model
@@ -219,6 +222,9 @@ def run(chk):
                     stats["server_diagnostics"] = stats.get("server_diagnostics", 0) + 1
                     continue
                 bad = check_project(chk, p, sess, stats, {"files": files})
+        except lsp_nav.ServerSlow:
+            stats["slow_skipped"] = stats.get("slow_skipped", 0) + 1    # a loaded machine is not a verdict
+            continue
         except lsp_nav.ServerDied as e:
             chk.oracle_failure(None, "server died: %s" % e, {"files": files})
             continue
